@@ -1138,6 +1138,11 @@ func emitForRangeStmt(cb *CodeBuilder, p *forRangeStmt, stmts []ast.Stmt, flows 
 				Fun: &ast.SelectorExpr{X: p.stmt.X, Sel: ident(p.enumName)},
 			}
 		}
+		if p.stmt.Tok == token.DEFINE && isBlankIdent(p.stmt.Key) &&
+			(p.stmt.Value == nil || isBlankIdent(p.stmt.Value)) {
+			// for _, _ := range x declares nothing, which Go rejects: assign instead
+			p.stmt.Tok = token.ASSIGN
+		}
 		p.stmt.X = checkHeaderExpr(p.stmt.X)
 		p.stmt.Body = p.handleFor(&ast.BlockStmt{List: stmts}, 1)
 		cb.emitStmt(p.stmt)
@@ -1195,6 +1200,11 @@ func emitForRangeStmt(cb *CodeBuilder, p *forRangeStmt, stmts []ast.Stmt, flows 
 		}
 		cb.emitStmt(stmt)
 	}
+}
+
+func isBlankIdent(x ast.Expr) bool {
+	id, ok := x.(*ast.Ident)
+	return ok && id.Name == "_"
 }
 
 const (
